@@ -67,8 +67,8 @@ var LeafKinds = []string{
 
 var WrapKinds = []string{
 	"wrap", "wrapf", "withmsg", "withmsgf", "stack", "hint", "detail", "safedetails",
-	"telemetry", "domain", "issuelink", "tags", "assertion", "mark", "secondary", "combine", "wrapferr",
-	"handled", "handledmsg", "handleddomain", "handleddomainmsg", "domhandled", "handleassert", "assertwrap",
+	"telemetry", "domain", "issuelink", "tags", "assertion", "mark", "secondary", "combine", "wrapferr", "wrapfgosyntax",
+	"handled", "handledmsg", "handledmsgf", "handledmsgf0", "handledsafemsg", "handleddomain", "handleddomainmsg", "domhandled", "handleassert", "assertwrap",
 	"newfw", "newfwsuffix", "httpcode", "grpccode",
 	"goerrorf", "goerrorfsuffix", "ospath", "oslink", "ossyscall", "netop", "dnswrap",
 	"pkgmsg", "pkgstack", "pkgwrap",
@@ -79,7 +79,7 @@ var WrapKinds = []string{
 var MultiKinds = []string{"join", "gojoin", "goerrorfmulti", "umulti", "rmulti", "umulticause"}
 
 // BarrierKinds hide their C behind a barrier.
-var BarrierKinds = []string{"handled", "handledmsg", "handleddomain", "handleddomainmsg", "domhandled", "handleassert", "assertwrap"}
+var BarrierKinds = []string{"handled", "handledmsg", "handledmsgf", "handledmsgf0", "handledsafemsg", "handleddomain", "handleddomainmsg", "domhandled", "handleassert", "assertwrap"}
 
 func IsBarrierKind(k string) bool { return in(k, BarrierKinds) }
 
@@ -183,9 +183,13 @@ func (g *Cfg) LeafOf(t *rapid.T, k string) *Spec {
 		}
 	case "sentinel":
 		s.S = []string{rapid.SampledFrom(SentinelNames).Draw(t, "sentinel")}
-	case "grpcstatus", "gogostatus":
+	case "grpcstatus":
 		s.S = []string{str(t, "msg")}
 		s.I = []int{rapid.IntRange(1, 16).Draw(t, "code")}
+	case "gogostatus":
+		// I[1] = 1: the status carries a detail message (S[1])
+		s.S = []string{str(t, "msg"), str(t, "detail")}
+		s.I = []int{rapid.IntRange(1, 16).Draw(t, "code"), rapid.IntRange(0, 1).Draw(t, "withdetail")}
 	case "addrerr":
 		s.S = []string{str(t, "err"), str(t, "addr")}
 	case "dnsleaf":
@@ -227,7 +231,13 @@ func (g *Cfg) WrapOf(t *rapid.T, k string, c *Spec) *Spec {
 		// Newf with %w and another error-typed argument.
 		s.S = []string{str(t, "lit")}
 		s.X = []*Spec{nil}
-	case "wrapf", "withmsgf", "safedetails", "assertwrap", "newfw", "newfwsuffix":
+	case "handledmsgf0":
+		s.S = []string{str(t, "lit")}
+	case "wrapfgosyntax":
+		// Wrapf with an error argument printed with %#v.
+		s.S = []string{str(t, "lit")}
+		s.X = []*Spec{nil}
+	case "wrapf", "withmsgf", "safedetails", "assertwrap", "newfw", "newfwsuffix", "handledmsgf", "handledsafemsg":
 		s.S = []string{str(t, "lit"), str(t, "uarg"), str(t, "sarg")}
 	case "telemetry":
 		n := rapid.IntRange(0, 3).Draw(t, "nkeys")
